@@ -51,7 +51,7 @@ func die(format string, a ...any) {
 }
 
 type stats struct {
-	Go, Lock, Unlock, Recv, Send, Select, RangeChan, RangeMap, RangeMapSkipped, WGWait, Sleep, AfterFunc, Ticker, FS int
+	Go, Lock, Unlock, Recv, Send, Select, RangeChan, RangeMap, RangeMapSkipped, RangeMapAtomic, WGWait, Sleep, AfterFunc, Ticker, FS int
 }
 
 type rewriter struct {
@@ -408,9 +408,29 @@ func (rw *rewriter) file(f *ast.File) bool {
 						c.Replace(rw.rangeMap(n))
 						rw.st.RangeMap++
 						mark()
-					} else {
-						rw.st.RangeMapSkipped++
-						rw.skippedMaps = append(rw.skippedMaps, rw.fset.Position(n.Pos()).String()+" key="+mt.Key().String())
+					} else if !(isBlank(n.Key) && isBlank(n.Value)) {
+						// Keys that cannot be ordered (pointers, interfaces): the iteration order stays the
+						// runtime's, so the loop must not contain scheduling points whose effects depend on
+						// that order. Make it atomic with respect to the scheduler where that is possible.
+						pos := rw.fset.Position(n.Pos()).String() + " key=" + mt.Key().String()
+						if escapes(n.Body) {
+							rw.st.RangeMapSkipped++
+							rw.skippedMaps = append(rw.skippedMaps, pos+" (not made atomic: body leaves the loop)")
+						} else {
+							b := &ast.BlockStmt{List: []ast.Stmt{
+								&ast.ExprStmt{X: call(sel("QuietOn"))},
+								n,
+								&ast.ExprStmt{X: call(sel("QuietOff"))},
+							}}
+							rw.prelude[b] = true
+							// keep a possible label on the loop: the LabeledStmt hook moves it onto the *last*
+							// statement of a prelude block, so put the loop last and the QuietOff into a defer-free tail
+							b.List = []ast.Stmt{b.List[0], &ast.ExprStmt{X: call(sel("QuietOffAfter"), &ast.FuncLit{Type: &ast.FuncType{Params: &ast.FieldList{}}, Body: &ast.BlockStmt{List: []ast.Stmt{n}}})}}
+							c.Replace(b)
+							rw.st.RangeMapAtomic++
+							rw.skippedMaps = append(rw.skippedMaps, pos+" (made atomic)")
+							mark()
+						}
 					}
 				}
 			}
@@ -782,4 +802,31 @@ func (rw *rewriter) fsPoints(f *ast.File) bool {
 		fd.Body.List = doList(fd.Body.List)
 	}
 	return changed
+}
+
+// escapes reports whether a loop body can leave the loop other than by falling
+// off its end or by an unlabeled break/continue of that very loop.
+func escapes(body *ast.BlockStmt) bool {
+	found := false
+	var walk func(n ast.Node, depth int)
+	walk = func(n ast.Node, depth int) {
+		ast.Inspect(n, func(m ast.Node) bool {
+			if found {
+				return false
+			}
+			switch x := m.(type) {
+			case *ast.FuncLit:
+				return false
+			case *ast.ReturnStmt:
+				found = true
+			case *ast.BranchStmt:
+				if x.Label != nil || x.Tok == token.GOTO {
+					found = true
+				}
+			}
+			return true
+		})
+	}
+	walk(body, 0)
+	return found
 }
